@@ -258,24 +258,29 @@ Ltac norm_neg H :=
   | _ => idtac
   end.
 
+Definition fired := True.
+Ltac mark_fired := lazymatch goal with _ : fired |- _ => idtac | _ => assert fired by exact I end.
+
 Ltac try_fire H :=
   lazymatch type of H with
   | box (?A -> ?B) =>
       first [ let a := fresh "a" in
               assert (a : A) by (first [assumption | lia]);
-              let H' := fresh "N" in pose proof (H a) as H'; clear H a; norm_fact H'
+              let H' := fresh "N" in pose proof (H a) as H'; clear H a; norm_fact H'; mark_fired
             | assert (~ A) by lia; clear H
             | let nb := fresh "nb" in
               assert (nb : ~ B) by lia;
-              let na := fresh "N" in assert (na : ~ A) by (intro; apply nb; apply H; assumption); clear H nb; norm_neg na
+              let na := fresh "N" in assert (na : ~ A) by (intro; apply nb; apply H; assumption); clear H nb; norm_neg na; mark_fired
             | idtac ]
   | box (?A \/ ?B) =>
       first [ let a := fresh "a" in
               assert (a : ~ A) by lia;
-              let H' := fresh "N" in assert (H' : B) by (destruct H as [H|H]; [exfalso; exact (a H) | exact H]); clear H a; norm_fact H'
+              let H' := fresh "N" in assert (H' : B) by (destruct H as [H|H]; [exfalso; exact (a H) | exact H]); clear H a; norm_fact H'; mark_fired
             | let a := fresh "a" in
               assert (a : ~ B) by lia;
-              let H' := fresh "N" in assert (H' : A) by (destruct H as [H|H]; [exact H | exfalso; exact (a H)]); clear H a; norm_fact H'
+              let H' := fresh "N" in assert (H' : A) by (destruct H as [H|H]; [exact H | exfalso; exact (a H)]); clear H a; norm_fact H'; mark_fired
+            | assert A by lia; clear H
+            | assert B by lia; clear H
             | idtac ]
   | _ => idtac
   end.
@@ -285,9 +290,18 @@ Ltac pass :=
   repeat (let H := fresh "B" in intro H; lazymatch type of H with box _ => try_fire H end).
 
 Ltac unbox_all := repeat match goal with H : box _ |- _ => apply box_use in H end.
-Ltac fwd := pass; pass; pass.
-(* case analysis when propagation is stuck: first on a premise that compares indices / ordinals (not a status code),
-   then on a disjunctive fact, last on a status premise; depth-limited *)
+
+(* propagate until a pass fires nothing (at most 8 passes) *)
+Ltac fwd_n n :=
+  pass;
+  lazymatch goal with
+  | X : fired |- _ => clear X; lazymatch n with O => idtac | S ?n' => fwd_n n' end
+  | _ => idtac
+  end.
+Ltac fwd := fwd_n 8%nat.
+
+(* case analysis when propagation is stuck: first on a disjunctive fact, then on a premise that compares indices /
+   ordinals (not a status code), last on a status premise; depth-limited *)
 Ltac is_status A :=
   lazymatch A with
   | st_code _ = _ => idtac
@@ -311,10 +325,10 @@ Ltac dpll n :=
           | O => fail
           | S ?n' =>
               first [ match goal with
-                      | H : box (?A -> _) |- _ => tryif is_status A then fail else (split_on H A ltac:(dpll n'))
+                      | H : box (_ \/ _) |- _ => destruct H as [H|H]; norm_fact H; dpll n'
                       end
                     | match goal with
-                      | H : box (_ \/ _) |- _ => destruct H as [H|H]; norm_fact H; dpll n'
+                      | H : box (?A -> _) |- _ => tryif is_status A then fail else (split_on H A ltac:(dpll n'))
                       end
                     | match goal with
                       | H : box (?A -> _) |- _ => split_on H A ltac:(dpll n')
